@@ -25,7 +25,7 @@ using namespace tbox::terminal;
 
 namespace {
 
-enum Key { K_CHAR = 0, K_ENTER, K_BS, K_DEL, K_LEFT, K_RIGHT, K_HOME, K_END, K_UP, K_DOWN, K_ENTER_LF, K_TAB, K_NKEY };
+enum Key { K_CHAR = 0, K_ENTER, K_BS, K_DEL, K_LEFT, K_RIGHT, K_HOME, K_END, K_UP, K_DOWN, K_ENTER_LF, K_TAB, K_JUNK, K_NKEY };
 static const char ALPHA[] = "pab x019!-hz";   // no '#', no ';', no quotes: keeps the reference model of command execution small
 
 // plan A (cfg hostile=0):  key <k> <c>      seg <nkeys> <dt_ms>
@@ -47,12 +47,14 @@ void generate(sim::Rng &r, uint64_t seed, const std::string &tier, sim::Plan &p)
       if (r.chance(250)) { int n = (int)r.range(1, 4); for (int i = 0; i < n; ++i) key(r.chance(600) ? K_UP : K_DOWN); }
       std::string w = words[r.below(r.chance(120) ? 26 : 19)];
       if (l == 0 && r.chance(200)) w = "!!";                 // history reference on an empty history
+      if (r.chance(70)) { sim::Op op; op.kind = "key"; op.a = {K_JUNK, (long)r.below(9)}; p.ops.push_back(op); }   // a key the editor does not know, before the line
       type(w);
       int nedit = r.chance(400) ? (int)r.range(1, 6) : 0;
       for (int i = 0; i < nedit; ++i) {
         unsigned x = (unsigned)r.below(100);
         if (x < 20) key(K_LEFT); else if (x < 32) key(K_RIGHT); else if (x < 42) key(K_HOME); else if (x < 52) key(K_END);
         else if (x < 66) key(K_BS); else if (x < 76) key(K_DEL); else if (x < 80) key(K_TAB);
+        else if (x < 85) { sim::Op op; op.kind = "key"; op.a = {K_JUNK, (long)r.below(9)}; p.ops.push_back(op); }
         else { sim::Op op; op.kind = "key"; op.a = {K_CHAR, (long)r.below(sizeof(ALPHA) - 1)}; p.ops.push_back(op); }
       }
       if (r.chance(800)) { sim::Op op; op.kind = "key"; op.a = {K_ENTER, r.chance(500) ? 0 : r.range(1, 5)}; p.ops.push_back(op); }   // how the line ends: CR LF, CR NUL, bare CR, CR | NUL
@@ -77,6 +79,7 @@ void generate(sim::Rng &r, uint64_t seed, const std::string &tier, sim::Plan &p)
   p.sched.strategy = "none";
 }
 
+#define LIT(x) std::string(x, sizeof(x) - 1)
 std::string encode_key(long k, long c) {
   switch (k) {
     case K_CHAR: return std::string(1, ALPHA[((c % (long)(sizeof(ALPHA) - 1)) + (long)(sizeof(ALPHA) - 1)) % (long)(sizeof(ALPHA) - 1)]);
@@ -90,6 +93,12 @@ std::string encode_key(long k, long c) {
     case K_UP: return "\x1b[A";
     case K_DOWN: return "\x1b[B";
     case K_ENTER_LF: return "\n";
+    case K_JUNK: {
+      // keys and sequences the line editor does not know: complete function keys, and escape prefixes aborted by a byte that is
+      // itself no key (so an editor that drops the aborting byte and one that rescans it agree: nothing happens to the line)
+      static const std::string J[] = {LIT("\x1b[3\x01"), LIT("\x1bO\x02"), LIT("\xc2\xa3"), LIT("\x1b\x01"), LIT("\x1b[5\x03"), LIT("\x1bOP"), LIT("\x1b[5~"), LIT("\x1b[15~"), LIT("\x1b[1\x04")};
+      return J[((c % 9) + 9) % 9];
+    }
     default: return "\t";
   }
 }
@@ -208,7 +217,6 @@ std::string hostile_bytes(long seedv, long len) {
   for (long i = 0; i < len; ++i) s.push_back((char)(rr.chance(850) ? alpha[rr.below(sizeof alpha)] : (unsigned char)rr.below(256)));
   return s;
 }
-#define LIT(x) std::string(x, sizeof(x) - 1)
 static const std::string FIXED[] = {
     LIT("\xff\xfa\x1f"),
     LIT("\xff\xfa\x1f\x00"),
